@@ -548,10 +548,23 @@ def correspondence(ctx: Ctx):
                 eng._backward_operator(k.clone(), S, m)
                 return ok_vals(mark.seen[0]) if len(mark.seen) == 1 else "err MarkerCalls"
         else:
-            def run(k=k, m=m, S=S):
+            # a call history on ONE ConjGrad instance: this mask, then another mask of the same shape
+            cgs = ConjGrad(Marker(), Marker())
+
+            def run(k=k, m=m, S=S, cgs=cgs):
                 mark = Marker()
-                ConjGrad(Marker(), mark)._A_star_op(k.clone(), S, m)
+                cgs.backward_operator = mark
+                cgs._A_star_op(k.clone(), S, m)
                 return ok_vals(mark.seen[0]) if len(mark.seen) == 1 else "err MarkerCalls"
+            yield {"line": pline(op, mk, ms, md, kshape, enc_vals(k)), "impl": _impl(run), "nontrivial": nontrivial,
+                   "bucket": f"{op}/{dn}/{pat}"}
+            m = gen_mask(rng, list(m.shape), dtype_name=dn, pattern="random")[2]
+            k = gen_kspace(rng, kshape)
+            mk, ms, md = mask_groups(m)
+            sup = support(m, kshape)
+            yield {"line": pline(op, mk, ms, md, kshape, enc_vals(k)), "impl": _impl(lambda k=k, m=m, S=S, cgs=cgs, run=run: run(k, m, S, cgs)),
+                   "nontrivial": bool(sup.any() and (~sup).any()), "bucket": f"{op}/{dn}/second-call-same-instance"}
+            continue
         yield {"line": pline(op, mk, ms, md, kshape, enc_vals(k)), "impl": _impl(run), "nontrivial": nontrivial,
                "bucket": f"{op}/{dn}/{pat}"}
     # ---- MRILogLikelihood: the `error` tensor handed to the backward operator
@@ -715,6 +728,7 @@ def oracle(ctx: Ctx, deep: bool = False):
                             {"op": "apply_padding", "data": _rep_tensor(d), "padding": _rep_tensor(p)})
     # (4) engine operators with the real FFTs: support of the forward output, non-interference of the rest
     eng = toy_engine()
+    shared = {"cg": ConjGrad(T.fft2, T.ifft2), "ll": MRILogLikelihood(T.fft2, T.ifft2)}
     for i in range(ctx.budget(60, 800) * (3 if deep else 1)):
         b, c, h, w = rng.choice([1, 2]), rng.choice([1, 2, 3]), rng.choice([2, 3, 4, 5]), rng.choice([2, 3, 4, 6])
         kshape = [b, c, h, w, 2]
@@ -733,7 +747,7 @@ def oracle(ctx: Ctx, deep: bool = False):
         nontrivial = bool(sup.any() and (~sup).any())
         rep = {"x": _rep_tensor(x), "S": _rep_tensor(S), "y": _rep_tensor(y), "y2": _rep_tensor(y2), "mask": _rep_tensor(m)}
         def engine_checks(x=x, S=S, y=y, y2=y2, m=m, sup=sup, junk=junk, rep=rep, nontrivial=nontrivial, i=i,
-                          kshape=kshape, dn=dn, pat=pat):
+                          kshape=kshape, dn=dn, pat=pat, shared=shared):
             eng.forward_operator, eng.backward_operator = T.fft2, T.ifft2
             ctx.count(("o-fwd", i, tuple(kshape), dn, pat), nontrivial, bucket="oracle/fwdOp")
             fo = _bits(eng._forward_operator(x, S, m))
@@ -748,6 +762,23 @@ def oracle(ctx: Ctx, deep: bool = False):
             if (b1 != b2).any():
                 yield Violation("bwdOp-depends-on-unsampled", "_backward_operator output changes with unsampled k-space entries",
                                 dict(rep, op="bwdOp"))
+            # call histories: instances reused across all cases (and twice here with another mask of the same shape)
+            # must behave like fresh ones
+            m2 = gen_mask(rng, list(m.shape), dtype_name=dn, pattern="random")[2]
+            for mm in (m, m2):
+                ctx.count(("o-history", i, tuple(kshape), dn), True, bucket="oracle/call-history")
+                f1 = _bits(ConjGrad(T.fft2, T.ifft2)._A_star_op(y2.clone(), S, mm))
+                s1 = _bits(shared["cg"]._A_star_op(y2.clone(), S, mm))
+                if (f1 != s1).any():
+                    yield Violation("astar-depends-on-call-history",
+                                    "ConjGrad._A_star_op on a reused instance differs from a fresh instance (stale state between calls)",
+                                    dict(rep, op="astar-history", mask2=_rep_tensor(m2)))
+                f2 = _bits(MRILogLikelihood(T.fft2, T.ifft2)(x.permute(0, 3, 1, 2), y2.clone(), S, mm))
+                s2 = _bits(shared["ll"](x.permute(0, 3, 1, 2), y2.clone(), S, mm))
+                if (f2 != s2).any():
+                    yield Violation("loglik-depends-on-call-history",
+                                    "MRILogLikelihood on a reused instance differs from a fresh instance (stale state between calls)",
+                                    dict(rep, op="loglik-history", mask2=_rep_tensor(m2)))
             ctx.count(("o-astar", i, tuple(kshape), dn, pat), nontrivial, bucket="oracle/astar")
             cg = ConjGrad(T.fft2, T.ifft2)
             a1, a2 = _bits(cg._A_star_op(y.clone(), S, m)), _bits(cg._A_star_op(y2.clone(), S, m))
@@ -902,9 +933,11 @@ def nn_block_specs():
     }
 
 
-def nn_block_inputs(seed: int, three_d: bool):
+def nn_block_inputs(seed: int, three_d: bool, shape_seed: int | None = None):
+    """inputs for one call: the shapes derive from `shape_seed` (default: seed), mask and data from `seed`"""
+    gs = torch.Generator().manual_seed(seed if shape_seed is None else shape_seed)
     g = torch.Generator().manual_seed(seed)
-    r = lambda *a: int(torch.randint(*a, (1,), generator=g))  # noqa: E731
+    r = lambda *a: int(torch.randint(*a, (1,), generator=gs))  # noqa: E731
     n, c, h, w = r(1, 3), r(1, 4), 8 * r(1, 3), 8 * r(1, 3)
     sp = [r(2, 4), h, w] if three_d else [h, w]
     kshape = [n, c] + sp + [2]
@@ -927,80 +960,127 @@ def nn_block_inputs(seed: int, three_d: bool):
     return kshape, m, S, full, y, junk, sel
 
 
-def check_nn_block(name: str, seed: int):
-    """-> list of (key, what)"""
+def _build_block(name: str, seed: int):
     build, call, mode, all_b_masked, three_d = nn_block_specs()[name]
-    kshape, m, S, full, y, junk, sel = nn_block_inputs(seed, three_d)
     F, B = JunkForward(), RecBackward()
-    torch.manual_seed(seed)
+    torch.manual_seed(seed)                     # identical parameters for every instance built with the same seed
     net = build(F, B).eval()
-    gate = [False]
     if mode == "hook-gated":
+        gate = [False]
         F.gate = B.gate = gate
         _gate_method(net, "_forward_operator", gate)
         _gate_method(net, "_backward_operator", gate)
+    return net, F, B
+
+
+def _call_block(name, net, inputs, data_junk=False):
+    call, mode = nn_block_specs()[name][1:3]
+    kshape, m, S, full, y, junk, sel = inputs
+    if mode == "block-data":
+        yy = y.clone()
+        if data_junk:
+            yy[sel] = junk[sel]
+        args = (None,) if name.startswith("Recurrent") else ()
+        o = net(full + 0.5, yy, m, S, *args)
+        return o[0] if isinstance(o, tuple) else o
+    return call(net, y, m, S)
+
+
+def nn_history(seed: int, three_d: bool):
+    """2-3 calls on ONE instance: same shape with another mask and other data, optionally another shape in between"""
+    a = nn_block_inputs(seed, three_d)
+    b = nn_block_inputs(seed + 1, three_d, shape_seed=seed)            # same shapes, different mask / data
+    x = nn_block_inputs(seed + 2, three_d, shape_seed=seed + 5)        # (most often) different shapes
+    c = nn_block_inputs(seed + 3, three_d, shape_seed=seed)
+    return [[a, b], [a, x, b], [a, b, c]][seed % 3]
+
+
+def check_nn_block(name: str, seed: int):
+    """-> list of (key, what).  Every call of a history on one persistent instance must (i) equal, bit for bit, the
+    output of a fresh instance with identical parameters, and (ii) satisfy non-interference / exact zeros for ITS mask."""
+    mode, all_b_masked, three_d = nn_block_specs()[name][2:5]
     out = []
+    net, F, B = _build_block(name, seed)
     with torch.no_grad():
-        if mode == "block-data":
-            y2 = y.clone()
-            y2[sel] = junk[sel]
-            cur = full + 0.5
-            args = (None,) if name.startswith("Recurrent") else ()
-            o1 = net(cur, y, m, S, *args)
-            o2 = net(cur, y2, m, S, *args)
-            o1, o2 = (o1[0], o2[0]) if isinstance(o1, tuple) else (o1, o2)
-            if (_bits(o1) != _bits(o2)).any():
-                out.append((f"nn-{name}-depends-on-unsampled-data",
-                            f"{name}: output changes with unsampled entries of the measured k-space"))
-            return out
-        o1 = call(net, y, m, S)
-        seen = list(B.seen)
-        F.sel, F.junk = sel, junk
-        calls_before = F.calls
-        o2 = call(net, y, m, S)
-        if F.calls == calls_before:
-            out.append((f"nn-{name}-no-forward-call", f"{name}: the forward operator was never called"))
-        if _bits(o1).shape != _bits(o2).shape or (_bits(o1) != _bits(o2)).any():
-            out.append((f"nn-{name}-depends-on-unsampled-prediction",
-                        f"{name}: output changes with unsampled entries of the predicted k-space F(E(x))"))
-        if all_b_masked:
-            selnp = sel.numpy()
-            for t in seen:
-                if list(t.shape) == kshape and (_bits(t)[selnp] != 0).any():
-                    out.append((f"nn-{name}-masked-quantity-not-zero",
-                                f"{name}: a k-space handed to the backward operator is not exactly +0 off the sampling mask"))
-                    break
-    return out
+        for step, inputs in enumerate(nn_history(seed, three_d)):
+            kshape, m, S, full, y, junk, sel = inputs
+            F.sel = F.junk = None
+            B.seen.clear()
+            o1 = _call_block(name, net, inputs)
+            seen = list(B.seen)
+            fresh, _, _ = _build_block(name, seed)
+            of = _call_block(name, fresh, inputs)
+            if _bits(o1).shape != _bits(of).shape or (_bits(o1) != _bits(of)).any():
+                out.append((f"nn-{name}-depends-on-call-history",
+                            f"{name}: call #{step + 1} on a reused instance differs from a fresh instance with the same parameters "
+                            f"(state such as a cached mask survives between calls)"))
+            if mode == "block-data":
+                o2 = _call_block(name, net, inputs, data_junk=True)
+                if (_bits(o1) != _bits(o2)).any():
+                    out.append((f"nn-{name}-depends-on-unsampled-data",
+                                f"{name}: call #{step + 1}: output changes with unsampled entries of the measured k-space"))
+                continue
+            F.sel, F.junk = sel, junk
+            calls_before = F.calls
+            o2 = _call_block(name, net, inputs)
+            if F.calls == calls_before:
+                out.append((f"nn-{name}-no-forward-call", f"{name}: the forward operator was never called"))
+            if _bits(o1).shape != _bits(o2).shape or (_bits(o1) != _bits(o2)).any():
+                out.append((f"nn-{name}-depends-on-unsampled-prediction",
+                            f"{name}: call #{step + 1}: output changes with unsampled entries of the predicted k-space F(E(x))"))
+            if all_b_masked:
+                selnp = sel.numpy()
+                for t in seen:
+                    if list(t.shape) == kshape and (_bits(t)[selnp] != 0).any():
+                        out.append((f"nn-{name}-masked-quantity-not-zero",
+                                    f"{name}: call #{step + 1}: a k-space handed to the backward operator is not exactly +0 off "
+                                    f"the current sampling mask"))
+                        break
+    seen_keys, uniq = set(), []
+    for k, w in out:
+        if k not in seen_keys:
+            seen_keys.add(k)
+            uniq.append((k, w))
+    return uniq
 
 
 def check_vsharp_engine(seed: int, three_d: bool):
-    """VSharpNet(3D)Engine.forward_function: output k-space = masked_kspace + apply_mask(F(E(x)), ~mask)"""
+    """VSharpNet(3D)Engine.forward_function: output k-space = masked_kspace + apply_mask(F(E(x)), ~mask), over a call history"""
     from omegaconf import OmegaConf
     from direct.config.defaults import DefaultConfig
     from direct.nn.vsharp.vsharp_engine import VSharpNet3DEngine, VSharpNetEngine
 
     name = "VSharpNet3D" if three_d else "VSharpNet"
     build = nn_block_specs()[name][0]
-    kshape, m, S, full, y, junk, sel = nn_block_inputs(seed, three_d)
-    m = m.bool()
-    torch.manual_seed(seed)
-    Fm, Fe = JunkForward(), JunkForward()
-    model = build(Fm, RecBackward()).eval()
-    eng = (VSharpNet3DEngine if three_d else VSharpNetEngine)(OmegaConf.structured(DefaultConfig), model, "cpu", Fe, RecBackward())
-    eng.ndim = 3 if three_d else 2
+
+    def make():
+        torch.manual_seed(seed)
+        fe = JunkForward()
+        model = build(JunkForward(), RecBackward()).eval()
+        e = (VSharpNet3DEngine if three_d else VSharpNetEngine)(OmegaConf.structured(DefaultConfig), model, "cpu", fe, RecBackward())
+        e.ndim = 3 if three_d else 2
+        return e, fe
+    eng, Fe = make()
     out = []
     with torch.no_grad():
-        data = lambda: {"masked_kspace": y.clone(), "sampling_mask": m, "sensitivity_map": S.clone()}  # noqa: E731
-        _, k1 = eng.forward_function(data())
-        Fe.sel, Fe.junk = ~sel, junk            # the engine keeps the prediction on the complement: junk on the SAMPLED positions
-        _, k2 = eng.forward_function(data())
-    samp = (~sel).numpy()
-    if (_bits(k1) != _bits(k2)).any():
-        out.append((f"nn-{name}Engine-prediction-leaks-into-sampled",
-                    f"{name}Engine.forward_function: output k-space changes with the predicted k-space at sampled positions"))
-    if not torch.equal(k1[~sel], y[~sel]):
-        out.append((f"nn-{name}Engine-alters-sampled", f"{name}Engine.forward_function: sampled k-space values are altered"))
-    return out
+        for step, (kshape, m, S, full, y, junk, sel) in enumerate(nn_history(seed, three_d)):
+            m = m.bool()
+            data = lambda: {"masked_kspace": y.clone(), "sampling_mask": m, "sensitivity_map": S.clone()}  # noqa: E731
+            Fe.sel = Fe.junk = None
+            _, k1 = eng.forward_function(data())
+            fresh, _ = make()
+            _, kf = fresh.forward_function(data())
+            if (_bits(k1) != _bits(kf)).any():
+                out.append((f"nn-{name}Engine-depends-on-call-history",
+                            f"{name}Engine.forward_function: call #{step + 1} on a reused engine differs from a fresh one"))
+            Fe.sel, Fe.junk = ~sel, junk    # the engine keeps the prediction on the complement: junk on the SAMPLED positions
+            _, k2 = eng.forward_function(data())
+            if (_bits(k1) != _bits(k2)).any():
+                out.append((f"nn-{name}Engine-prediction-leaks-into-sampled",
+                            f"{name}Engine.forward_function: output k-space changes with the predicted k-space at sampled positions"))
+            if not torch.equal(k1[~sel], y[~sel]):
+                out.append((f"nn-{name}Engine-alters-sampled", f"{name}Engine.forward_function: sampled k-space values are altered"))
+    return list(dict(out).items())
 
 
 NN_BLOCKS = ["LPDNet", "XPDNet", "JointICNet", "KIKINet", "VSharpNet", "VSharpNet3D", "MRIVarSplitNet", "IterDualNet", "RIM",
@@ -1074,6 +1154,18 @@ def replay(rep: dict) -> bool:
             return bool((fo[~sup] != 0).any() or (fo[sup] != ref[sup]).any())
         if op == "bwdOp":
             return bool((_bits(eng._backward_operator(y.clone(), S, m)) != _bits(eng._backward_operator(y2.clone(), S, m))).any())
+        if op in ("astar-history", "loglik-history"):
+            m2 = _from_rep(rep["mask2"])
+            if op == "astar-history":
+                inst, run = ConjGrad(T.fft2, T.ifft2), lambda o, mm: o._A_star_op(y2.clone(), S, mm)
+                new_inst = lambda: ConjGrad(T.fft2, T.ifft2)  # noqa: E731
+            else:
+                inst, run = MRILogLikelihood(T.fft2, T.ifft2), lambda o, mm: o(x.permute(0, 3, 1, 2), y2.clone(), S, mm)
+                new_inst = lambda: MRILogLikelihood(T.fft2, T.ifft2)  # noqa: E731
+            bad = False
+            for mm in (m, m2, m):
+                bad = bad or bool((_bits(run(inst, mm)) != _bits(run(new_inst(), mm))).any())
+            return bad
         if op == "astar":
             cg = ConjGrad(T.fft2, T.ifft2)
             return bool((_bits(cg._A_star_op(y.clone(), S, m)) != _bits(cg._A_star_op(y2.clone(), S, m))).any())
